@@ -46,6 +46,8 @@ pub enum Outcome {
     Err(u8),
     Panic,
     Never,
+    /// panic synchronously inside `Service::call`, before a future is returned
+    PanicInCall,
 }
 
 #[derive(Clone, Copy, Debug, Serialize, Deserialize, PartialEq, Eq, Hash)]
@@ -260,7 +262,17 @@ impl tower::Service<Req> for SimInner {
             Outcome::Err(_) => world::fault("inner_error"),
             Outcome::Panic => world::fault("inner_panic"),
             Outcome::Never => world::fault("inner_never"),
+            Outcome::PanicInCall => world::fault("inner_panic_in_call"),
             Outcome::Ok => {}
+        }
+        if beh.out == Outcome::PanicInCall {
+            // entered and left at once: a panic out of call() itself
+            world::with(|w| {
+                w.in_flight[svc as usize] -= 1;
+                *w.in_flight_key.entry((svc, req.key)).or_insert(0) -= 1;
+            });
+            world::log(Ev::InnerEnd { svc, serial, how: EndHow::Panicked });
+            std::panic::panic_any(SimPanic);
         }
         let mut guard = Guard {
             svc,
@@ -296,7 +308,7 @@ impl tower::Service<Req> for SimInner {
                         svc,
                     })
                 }
-                Outcome::Panic => {
+                Outcome::Panic | Outcome::PanicInCall => {
                     let _g = guard;
                     std::panic::panic_any(SimPanic);
                 }
